@@ -45,6 +45,7 @@ class Contract:
         S = ex.S
         outs = []
         for e in self.effects: ex.effect(e, node, p, via=self.short)
+        p.trace = p.trace + (('call', self.short, ns),)          # ghost: the call and its arguments, readable by 4-argument postconditions
         argvals = [ns._env[n] for n in ns._env]
         for sh in self.result_shapes(S, ns):
             q = p.fork()
